@@ -124,7 +124,8 @@ class Question(object):
         """
         Outputs an error message.
         """
-        message = "<error>{}</error>".format(decode(str(error)))
+        # The message quotes what the user typed: it must not be read as style tags.
+        message = "<error>{}</error>".format(decode(str(error)).replace("<", "\\<"))
 
         io.error_line(message)
 
